@@ -247,9 +247,12 @@ func genMsgs(out string) {
 	var dialects []dialectT
 	defs := map[string]msgT{} // key pkg.GoName
 	var txt strings.Builder
+	var dtxt strings.Builder
 	var dl strings.Builder
-	dl.WriteString("-- GENERATED by tools/extract from pkg/dialects/*/dialect.go and message_*.go — do not edit\nnamespace Mav.Gen\n\n/-- one message of a dialect: Go name, id, defining package, alias chain -/\nstructure DMsg where\n  goName : String\n  id : Nat\n  defPkg : String\n  chain : List String\nderiving Repr, DecidableEq\n\nstructure Dialect where\n  name : String\n  version : Nat\n  msgs : List DMsg\nderiving Repr\n\n")
+	dl.WriteString("-- GENERATED by tools/extract from pkg/dialects/*/dialect.go and message_*.go — do not edit\nimport Mav.Model.DialectCheck\nnamespace Mav.Gen\n\n/-- one message of a dialect: Go name, id, defining package, alias chain -/\nstructure DMsg where\n  goName : String\n  id : Nat\n  defPkg : String\n  chain : List String\nderiving Repr, DecidableEq\n\nstructure Dialect where\n  name : String\n  version : Nat\n  msgs : List DMsg\nderiving Repr\n\n")
 	var dnames []string
+	var idThms []string
+	var idLists []string
 	for _, e := range ents {
 		if !e.IsDir() {
 			continue
@@ -273,6 +276,7 @@ func genMsgs(out string) {
 			}
 			ms = append(ms, fmt.Sprintf("  { goName := %s, id := %d, defPkg := %s, chain := [%s] }", lstr(gn), m.id, lstr(m.pkg), strings.Join(ch, ", ")))
 			txt.WriteString(fmt.Sprintf("%s %d %s %s\n", d.name, m.id, gn, m.body()))
+			dtxt.WriteString(fmt.Sprintf("defpkg %s %d %s.%s\n", d.name, m.id, m.pkg, gn))
 		}
 		// chunk the list literal
 		var chunks []string
@@ -287,10 +291,33 @@ func genMsgs(out string) {
 			chunks = []string{"[]"}
 		}
 		dl.WriteString(fmt.Sprintf("def dialect_%s : Dialect := { name := %s, version := %s, msgs :=\n%s }\n\n", d.name, lstr(d.name), d.version, strings.Join(chunks, " ++\n")))
+		var idl []string
+		for _, gn := range d.msgs {
+			ddir, _, _ := resolve(dir, gn)
+			idl = append(idl, fmt.Sprint(defs[filepath.Base(ddir)+"."+gn].id))
+		}
+		var idchunks []string
+		for i := 0; i < len(idl); i += 40 {
+			j := i + 40
+			if j > len(idl) {
+				j = len(idl)
+			}
+			idchunks = append(idchunks, "["+strings.Join(idl[i:j], ", ")+"]")
+		}
+		if len(idchunks) == 0 {
+			idchunks = []string{"[]"}
+		}
+		dl.WriteString(fmt.Sprintf("/-- the message ids of dialect %s, in the order of its message list -/\ndef ids_%s : List Nat := %s\n\n", d.name, d.name, strings.Join(idchunks, " ++ ")))
+		dl.WriteString(fmt.Sprintf("set_option maxRecDepth 1000000 in\n/-- ENUMERATED (kernel-decided): message ids are unique within dialect %s -/\ntheorem ids_distinct_%s : Mav.idsDistinct ids_%s = true := by decide +kernel\n\n", d.name, d.name, d.name))
+		idLists = append(idLists, fmt.Sprintf("(%s, ids_%s)", lstr(d.name), d.name))
+		idThms = append(idThms, "ids_distinct_"+d.name)
 	}
-	dl.WriteString("def dialects : List Dialect := [" + strings.Join(dnames, ", ") + "]\nend Mav.Gen\n")
+	dl.WriteString("def dialects : List Dialect := [" + strings.Join(dnames, ", ") + "]\n\n")
+	dl.WriteString("/-- dialect name ↦ its message ids -/\ndef dialectIds : List (String × List Nat) := [" + strings.Join(idLists, ", ") + "]\n\n")
+	dl.WriteString("theorem ids_distinct : dialectIds.all (fun d => Mav.idsDistinct d.2) = true := by\n  simp only [dialectIds, List.all_cons, List.all_nil, " + strings.Join(idThms, ", ") + ", Bool.and_self]\n\nend Mav.Gen\n")
 	write(out, "Dialects.lean", dl.String())
 	write(out, "msgs.txt", txt.String())
+	write(out, "dialects.txt", dtxt.String())
 
 	var keys []string
 	for k := range defs {
